@@ -13,18 +13,20 @@ import hashlib
 
 CLAIM = {
     "level": "proof",
-    "text": "Coq theorem: for every expression tree of the modelled kinds (identifier, literal, unary, star, binary over the "
-            "regenerated precedence table, parenthesis, call with/without '...', index, selector, error wrap, lambda) whose operand "
-            "positions satisfy the decidable predicate posok, the model parser applied to the model printer's tokens returns the "
-            "tree with exactly the printer's parentheses inserted (so the structure is preserved; printing it again gives the same "
-            "tokens).  posok fails exactly on the positions where the real printer omits parentheses (ErrWrapExpr.X, "
-            "ErrWrapExpr.Default, StarExpr.X, lambda / ?:-default as operand of a postfix or operator): these are proved refuted "
-            "on the model and reproduced on the implementation as known findings.  Model and code are tied on every run by an "
-            "exhaustive small-scope + seeded differential of both the printer tokens and the parser results.",
-    "note": "Token level: blanks (mayCombine, cutoff) and layout are not in the theorem; they are covered by scanning the real "
-            "printer's text with the real scanner in the differential run.  XGo node kinds outside the model (range, command call, "
-            "slice/composite/matrix literal, comprehension, env, domain text, number-unit, types, slices, type assertions) are "
-            "explored by the direct oracle only.  Trusted: Coq kernel, extraction, translator (Gen/Tokens.v), harness.",
+    "text": "Coq theorems over a token-level model of printer.expr1/binaryExpr and of the expression parser reached from parser.ParseExpr "
+            "(identifier, literal, unary, star, binary over the regenerated precedence table, parenthesis, call with/without '...', index, "
+            "selector, error wrap with/without default, lambda): the parser model terminates on every token list (explicit fuel bound); for "
+            "EVERY tree whose operand positions satisfy the decidable predicate posokb, parse(print e) is e with exactly the printer's "
+            "parentheses inserted, so stripping parentheses gives e back and printing again gives the same tokens.  posokb fails exactly "
+            "where the real printer omits parentheses (ErrWrapExpr.X / .Default, StarExpr.X, a lambda or an 'x ?: d' as operand, a lambda "
+            "body starting with '('): for these the full statement is proved FALSE on the model and the failures are reproduced on the "
+            "implementation (known findings).  Tie on every run: K-gen (precedence function, token codes, the precedence context of every "
+            "operand in expr1, the parenthesisation conditions, mayCombine - all regenerated from the source and checked by computation) and "
+            "K-diff (exhaustive small scope + seeded: printer tokens, re-parse of printed text, parser on token streams).",
+    "note": "Token level: blanks (cutoff/depth) and layout are not in the theorem; they are observed by scanning the real printer's text with "
+            "the real scanner in the differential run (mayCombine itself is a checked table obligation).  XGo node kinds outside the model "
+            "(range, command call, slice/composite/matrix literal, comprehension, env, domain text, number-unit, types, slices, type "
+            "assertions) are explored by the direct oracle only.  Trusted: Coq kernel, extraction, translator, harness.",
 }
 
 # ---------------------------------------------------------------------------------------------
@@ -356,9 +358,43 @@ def fill_prec(g, T):
             g.prec[T[nm]] = p
 
 
+REVIEWED_OPERANDS = [
+    ("#possibleSelectorExpr", "x", "selectorExpr"), ("#possibleSelectorExpr", "expr", "prec1"), ("BinaryExpr", "x", "binaryExpr"),
+    ("BinaryExpr#binaryExpr", "x", "expr0"), ("BinaryExpr#binaryExpr", "x.X", "prec"), ("BinaryExpr#binaryExpr", "x.Y", "prec + 1"),
+    ("CallExpr", "x.Fun", "token.HighestPrec"), ("CallExpr", "x.Fun", "token.HighestPrec"), ("CallExpr", "x.Args", "exprList"),
+    ("CallExpr", "x.Args", "exprList"), ("ErrWrapExpr", "x.X", "expr"), ("ErrWrapExpr", "x.Default", "expr"),
+    ("IndexExpr", "x.X", "token.HighestPrec"), ("IndexExpr", "x.Index", "expr0"), ("LambdaExpr", "x.Lhs", "identList"),
+    ("LambdaExpr", "x.Lhs[0]", "expr"), ("LambdaExpr", "x.Rhs", "exprList"), ("LambdaExpr", "x.Rhs[0]", "expr"),
+    ("ParenExpr", "x.X", "expr0"), ("ParenExpr", "x.X", "expr0"), ("SelectorExpr", "x", "selectorExpr"),
+    ("SelectorExpr#selectorExpr", "x.X", "token.HighestPrec"), ("StarExpr", "x.X", "expr"), ("StarExpr", "x.X", "expr"),
+    ("UnaryExpr", "x", "expr"), ("UnaryExpr", "x.X", "prec"),
+]
+REVIEWED_CONDS = [("BinaryExpr#binaryExpr", "prec < prec1"), ("StarExpr", "prec < prec1"), ("UnaryExpr", "prec < prec1")]
+MODELLED = set(k for k, _, _ in REVIEWED_OPERANDS) | {"Ident", "BasicLit"}
+
+
+def static_contexts(ctx):
+    """static half of the tie: the operand contexts of expr1 as written in the source vs the reviewed ones the model is built on.
+    Informational (evidence key static_gen_*): a textual change of expr1 is decided by the differential run."""
+    try:
+        j = ctx.gen_json("printerexpr")
+    except Exception as e:
+        ctx.notes["static_gen"] = "not available: %s" % e
+        return
+    ops = [(o["Kind"], o["Field"], o["Ctx"]) for o in j.get("operands", []) if o["Kind"] in MODELLED]
+    conds = [(c["Kind"], c["Ctx"]) for c in j.get("paren_conds", [])]
+    ctx.notes["static_gen_operand_contexts"] = len(ops)
+    if ops != REVIEWED_OPERANDS or conds != REVIEWED_CONDS:
+        diff = [o for o in ops if o not in REVIEWED_OPERANDS] + [o for o in REVIEWED_OPERANDS if o not in ops] + \
+               [c for c in conds if c not in REVIEWED_CONDS] + [c for c in REVIEWED_CONDS if c not in conds]
+        ctx.notes["static_gen_changed"] = [list(d) for d in diff]
+        ctx.log("static_gen: expr1 contexts differ from the reviewed ones:", str(diff)[:300])
+
+
 def run(ctx):
-    ctx.regen(["tokens"])
+    ctx.regen(["tokens", "printerexpr"])
     ok = ctx.prove("C22")
+    static_contexts(ctx)
     model = ctx.model("expr")
     impl = ctx.harness("c22")
     T = toks(ctx)
@@ -393,10 +429,10 @@ def run(ctx):
         # the finding keys are derived from the same predicate the theorem assumes: posokb (Coq) ~ first_violation (here)
         if "v" in fb[3]:
             vc.append(s); vi.append("posok" if g.first_violation(n) is None else "violates"); vm.append("posok" if "p" in fb[3] else "violates")
-            # theorem + correspondence: a valid, lambda-free tree satisfying posokb must round-trip on the implementation
-            if "p" in fb[3] and "l" in fb[3] and fa[1] != "ok":
+            # theorem + correspondence: a valid tree satisfying posokb must round-trip on the implementation
+            if "p" in fb[3] and fa[1] != "ok":
                 ctx.fail("tree:" + s.replace(" ", "_"), "posokb holds but Fprint(%s) = %s re-parses as %s" % (s, fa[3], fa[2]), {"tree": s, "impl": a})
-            if "p" in fb[3] and "l" in fb[3]:
+            if "p" in fb[3]:
                 proved += 1
         kc.append(s); ki.append(fa[0]); km.append(fb[0])
         pc.append(s)
